@@ -123,8 +123,11 @@ def func_scen(prop, tier, rng):
                     if i == j:
                         continue     # f.add(f): numpy views make this ill-defined; not in the property
                     ops.append(('add', i, j))
-                elif r < 0.75:
+                elif r < 0.7:
                     ops.append(('mul', rng.randrange(nobj), rng.choice([Fr(2), Fr(1, 2), Fr(-1), Fr(3)])))
+                elif r < 0.8:
+                    ops.append(tuple(['avg'] + [rng.randrange(nobj) for _ in range(rng.randint(2, 3))]))
+                    nobj += 1
                 else:
                     ops.append(('copy', rng.randrange(nobj)))
                     nobj += 1
